@@ -611,3 +611,19 @@ func TestK1_MixedConverterTie(t *testing.T) {
 	}
 	t.Logf("the value named `other` was converted in %d of 300 calls (known finding K1 while > 0)", other)
 }
+
+// F28 (C14): a marker struct behind 256 pointers was accepted as the plain form (the depth was counted in a uint8).
+func TestF28_PointerDepthWraps(t *testing.T) {
+	type s struct {
+		am.Struct
+		A int
+	}
+	typ := reflect.TypeOf(s{})
+	for i := 0; i < 256; i++ {
+		typ = reflect.PtrTo(typ)
+	}
+	fn := reflect.MakeFunc(reflect.FuncOf([]reflect.Type{typ}, nil, false), func([]reflect.Value) []reflect.Value { return nil })
+	if f, err := am.NewFunc(fn.Interface()); err == nil {
+		t.Fatalf("256 levels of indirection accepted: %v", f.Input().Values())
+	}
+}
